@@ -196,6 +196,7 @@ type Endpoint struct {
 	ShutdownGate chan struct{}                                 // if set, Shutdown blocks until it is closed
 	OnAdvertise  func(call int)                                // if set, called on every FinalAdvertiseAddr (1 = first) before it answers: working out the address may take time
 	advCalls     atomic.Int64
+	AdvIP        atomic.Pointer[net.IP] // if set, what FinalAdvertiseAddr reports from now on (the host was given another address)
 	admit        sync.RWMutex
 }
 
@@ -229,6 +230,9 @@ func (e *Endpoint) FinalAdvertiseAddr(string, int) (net.IP, int, error) {
 	k := int(e.advCalls.Add(1))
 	if f := e.OnAdvertise; f != nil {
 		f(k)
+	}
+	if ip := e.AdvIP.Load(); ip != nil {
+		return *ip, e.Port, nil
 	}
 	return e.IP, e.Port, nil
 }
